@@ -43,6 +43,18 @@ META = {
         "(thorough: reader and writer on separate goroutines under the race detector)." + HELD,
         "Tolerances: a cut inside the first record is a NewConn error; a cut inside a retried hello may deliver none or the raw partial record. All record lengths only in the thorough tier (stride 97 in quick).",
         "runtime monitor: fault enumeration at every byte offset with conservation/order oracle over tap logs; race detector"),
+    "C08": M("exploration", "§6 C08",
+        "Drives structure-aware hostile inputs (record-level edge cases, byte-level and structural mutations of valid offers and plain hellos incl. duplicated ECH extensions, authentic payloads whose decrypted inner is hostile, hostile client "
+        "and backend record streams) through NewConn/Read/Write under a panic guard with progress counters from the transport tap, a two-record bound on bytes buffered inside the Conn and exact per-call allocation deltas "
+        "(single-threaded sub-workload); a second stage runs NewConn under testing/synctest with the client stalling at EVERY byte offset of the first record and requires an error no later than the context deadline in virtual time." + HELD,
+        "'All byte strings' is sampled; allocation budget 1 MiB per call; the stall stage uses go1.26.8 (testing/synctest).",
+        "runtime monitor: panic guard + progress/buffer/allocation counters over generated hostile inputs; virtual-time stall enumeration"),
+    "C18": M("exploration", "§6 C18",
+        "Runs Dial inside testing/synctest bubbles (virtual time) with a scripted DialFunc: all 88,880 scenarios of a reduced grid with <= 3 targets are enumerated and 120k (2M thorough) larger ones PRNG-drawn; a trace-specification checker over "
+        "start/finish/close/return events stamped with virtual time decides order, concurrency bound, stagger delay, per-attempt timeout, first-success-wins, closing of late winners, joined errors, prompt cancellation, cancelled late attempts, "
+        "and a goroutine scan at quiescence detects leaks; thorough repeats the grid under the race detector." + HELD,
+        "Virtual time serialises timer events; same-instant events may be ordered either way and are judged leniently. go1.26.8 toolchain.",
+        "runtime monitor: offline trace checker over virtual-time event logs (testing/synctest) + goroutine leak scan; race detector"),
     "C09": M("exploration", "§6 C09",
         "Metamorphic check: for offers sealed to a target key K, every key list of length <= 3 (K at each position or absent; neighbours from same/other id x same/disjoint/partial suites x same/other public name) and sampled lists of length 4 "
         "must give the same acceptance, error class, forwarded bytes and accessors as the single-key (or no-key) baseline, for the first hello and for hello -> HRR -> retried hello." + HELD,
